@@ -23,6 +23,20 @@ HasCode(tbl, val) == \E i \in 1..Len(tbl) : tbl[i][2] = val
 StartCode == Zeros(16) \o <<1>>
 
 (* ------------------------------ picture headers ---------------------------------- *)
+(* Unrestricted Motion Vector mode (Annex D) can be signalled in a PLUSPTYPE header (fields umv, uui): the differentials   *)
+(* are then coded with the reversible code of Table D.3.  Only the SYNTAX is specified here (used for inputs that are not *)
+(* claimed valid); reconstruction in UMV mode is not specified.                                                           *)
+Umv(pic) == pic.hk = "plus" /\ "umv" \in DOMAIN pic /\ pic.umv = 1
+(* A PLUSPTYPE header with UFEP = 000 does not retransmit OPPTYPE: the picture has the size (fields w, h of the abstract  *)
+(* picture) and the optional modes of the picture before it.  Only predicted pictures may be sent that way.               *)
+Ufep0(pic) == pic.hk = "plus" /\ "ufep0" \in DOMAIN pic /\ pic.ufep0 = 1
+RECURSIVE UmvDataBits(_, _)
+UmvDataBits(m, k) == IF k = 0 THEN <<>> ELSE <<(m \div Pow2(k - 1)) % 2, 1>> \o UmvDataBits(m, k - 1)
+RECURSIVE Log2Floor(_)
+Log2Floor(n) == IF n <= 1 THEN 0 ELSE 1 + Log2Floor(n \div 2)
+(* Table D.3: 0 -> "1"; otherwise "0", then for each bit below the leading one <<bit, 1>>, then <<sign, 0>> *)
+UmvCode(v) == IF v = 0 THEN <<1>>
+              ELSE LET a == Abs(v)  k == Log2Floor(a) IN <<0>> \o UmvDataBits(a - Pow2(k), k) \o <<IF v < 0 THEN 1 ELSE 0, 0>>
 SorensonSize(sc, w, h) ==
     CASE sc = 0 -> ToBits(w, 8) \o ToBits(h, 8)
       [] sc = 1 -> ToBits(w, 16) \o ToBits(h, 16)
@@ -46,13 +60,19 @@ HeaderBits(pic) ==
       [] pic.hk = "base" ->      \* PSC TR PTYPE(13) PQUANT CPM PEI ; PTYPE bit 9: 0 = INTRA, 1 = INTER
            StartCode \o Zeros(5) \o ToBits(pic.tr, 8) \o <<1, 0, 0, 0, 0>> \o ToBits(pic.fmt, 3)
            \o <<IF pic.pt = "I" THEN 0 ELSE 1, 0, 0, 0, 0>> \o ToBits(pic.q, 5) \o <<0>> \o PeiBits(pic.pei, 1)
+      [] pic.hk = "plus" /\ Ufep0(pic) ->   \* PSC TR PTYPE(8, format 111) UFEP=000 MPPTYPE CPM PQUANT PEI: nothing of OPPTYPE
+           StartCode \o Zeros(5) \o ToBits(pic.tr, 8) \o <<1, 0, 0, 0, 0, 1, 1, 1>>       \* is sent; size and modes are
+           \o <<0, 0, 0>>                                                                 \* those of the previous picture
+           \o ToBits(IF pic.pt = "I" THEN 0 ELSE 1, 3) \o <<0, 0, 0>> \o <<0, 0, 1>>
+           \o <<0>> \o ToBits(pic.q, 5) \o PeiBits(pic.pei, 1)
       [] pic.hk = "plus" ->      \* PSC TR PTYPE(8, format 111) UFEP=001 OPPTYPE MPPTYPE CPM CPFMT PQUANT PEI
            StartCode \o Zeros(5) \o ToBits(pic.tr, 8) \o <<1, 0, 0, 0, 0, 1, 1, 1>>
            \o <<0, 0, 1>>                                              \* UFEP
-           \o <<1, 1, 0>> \o Zeros(11) \o <<1, 0, 0, 0>>                \* OPPTYPE: custom format, no optional mode
+           \o <<1, 1, 0>> \o <<0, IF Umv(pic) THEN 1 ELSE 0>> \o Zeros(9) \o <<1, 0, 0, 0>>   \* OPPTYPE: custom format; optionally UMV
            \o ToBits(IF pic.pt = "I" THEN 0 ELSE 1, 3) \o <<0, 0, 0>> \o <<0, 0, 1>>     \* MPPTYPE
            \o <<0>>                                                    \* CPM
            \o <<0, 0, 0, 1>> \o ToBits((pic.w \div 4) - 1, 9) \o <<1>> \o ToBits(pic.h \div 4, 9)   \* CPFMT, square pixels
+           \o (IF Umv(pic) THEN (IF pic.uui = 1 THEN <<1>> ELSE <<0, 1>>) ELSE <<>>)              \* UUI: "1" limited, "01" unlimited
            \o ToBits(pic.q, 5) \o PeiBits(pic.pei, 1)
 
 (* ------------------------------ macroblock and block layer ------------------------ *)
@@ -72,7 +92,9 @@ EventsBits(evs, i, ver1) == IF i > Len(evs) THEN <<>> ELSE EventBits(evs[i], ver
 BlockBits(blk, ver1) == (IF blk.dc >= 0 THEN ToBits(blk.dc, 8) ELSE <<>>) \o EventsBits(blk.ev, 1, ver1)
 RECURSIVE MvdBits(_, _)
 MvdBits(mvd, i) == IF i > Len(mvd) THEN <<>> ELSE CodeOf(Mvd, mvd[i][1]) \o CodeOf(Mvd, mvd[i][2]) \o MvdBits(mvd, i + 1)
-MbBits(mb, intraPic, ver1) ==
+RECURSIVE UmvBits(_, _)
+UmvBits(mvd, i) == IF i > Len(mvd) THEN <<>> ELSE UmvCode(mvd[i][1]) \o UmvCode(mvd[i][2]) \o UmvBits(mvd, i + 1)
+MbBits(mb, intraPic, ver1, umv) ==
     CASE mb.k = "stuff" -> (IF intraPic THEN <<>> ELSE <<0>>) \o CodeOf(IF intraPic THEN McbpcI ELSE McbpcP, <<-1, 0>>)
       [] mb.k = "skip"  -> <<1>>
       [] mb.k = "raw"   -> mb.bits      \* arbitrary bits (only in inputs that are not claimed to be valid pictures)
@@ -82,20 +104,21 @@ MbBits(mb, intraPic, ver1) ==
                cbpy  == CodeOf(Cbpy, IF IsIntraT(mb.t) THEN mb.cbpy ELSE 15 - mb.cbpy)
                dq    == IF HasDq(mb.t) THEN DqBits(mb.dq) ELSE <<>>
                fault == IF "fault" \in DOMAIN mb THEN mb.fault ELSE "none"
+               mvds  == IF umv THEN UmvBits(mb.mvd, 1) ELSE MvdBits(mb.mvd, 1)
            IN  \* fault injection (inputs that are not claimed valid): the named element is replaced by a
                \* prefix that begins no code word of its table and the macroblock stops there
                CASE fault = "mcbpc" -> cod \o (IF intraPic THEN McbpcIInvalid[1] ELSE McbpcPInvalid[1])
                  [] fault = "cbpy"  -> cod \o mcbpc \o CbpyInvalid[1]
                  [] fault = "mvd"   -> cod \o mcbpc \o cbpy \o dq \o MvdInvalid[1]
-                 [] fault = "tcoef" -> cod \o mcbpc \o cbpy \o dq \o MvdBits(mb.mvd, 1)
+                 [] fault = "tcoef" -> cod \o mcbpc \o cbpy \o dq \o mvds
                                        \o (IF mb.b[1].dc >= 0 THEN ToBits(mb.b[1].dc, 8) ELSE <<>>) \o TcoefInvalid[1]
                  [] OTHER ->
-                      cod \o mcbpc \o cbpy \o dq \o MvdBits(mb.mvd, 1)
+                      cod \o mcbpc \o cbpy \o dq \o mvds
                       \o BlockBits(mb.b[1], ver1) \o BlockBits(mb.b[2], ver1) \o BlockBits(mb.b[3], ver1)
                       \o BlockBits(mb.b[4], ver1) \o BlockBits(mb.b[5], ver1) \o BlockBits(mb.b[6], ver1)
 Ver1(pic) == pic.hk = "sor" /\ pic.ver = 1
 IntraPic(pic) == pic.pt = "I"
-MbsBits(pic) == ConcatAll([i \in 1..Len(pic.mbs) |-> MbBits(pic.mbs[i], IntraPic(pic), Ver1(pic))])
+MbsBits(pic) == ConcatAll([i \in 1..Len(pic.mbs) |-> MbBits(pic.mbs[i], IntraPic(pic), Ver1(pic), Umv(pic))])
 (* the picture without its trailing padding; EndLen = number of bits up to the end of the last macroblock *)
 PictureBits(pic) == HeaderBits(pic) \o MbsBits(pic)
 (* a picture is followed by fewer than eight zero bits up to the next byte boundary *)
@@ -136,6 +159,8 @@ WellFormed(pic) ==
     /\ pic.db \in {0, 1}
     /\ pic.hk = "sor" => (pic.ver \in 0..31 /\ pic.sc \in 0..6
                            /\ (pic.sc = 0 => pic.w \in 1..255 /\ pic.h \in 1..255) /\ (pic.sc = 1 => pic.w \in 1..65535 /\ pic.h \in 1..65535))
+    /\ Ufep0(pic) => (pic.pt = "P" /\ ~Umv(pic))
+    /\ ~Umv(pic)                                   \* reconstruction in UMV mode is not specified: such pictures are opaque inputs
     /\ pic.hk = "plus" => (pic.w % 4 = 0 /\ pic.h % 4 = 0 /\ pic.w \in 4..2048 /\ pic.h \in 4..1152 /\ pic.pt # "D")
     /\ pic.hk = "base" => (pic.fmt \in 1..5 /\ pic.pt # "D")
     /\ \A i \in 1..Len(pic.pei) : pic.pei[i] \in 0..255
